@@ -944,6 +944,75 @@ Proof.
     replace (k - start)%nat with (S (k - S start)) by lia. exact Hn.
 Qed.
 
+(** the labels of the harness are the [canon] forms of the instantiations it records: coincidence-
+    freeness does not depend on the form *)
+Lemma canon_fix_map xs :
+  (fix go (l : list src) := match l with [] => [] | x :: l' => canon x :: go l' end) xs = map canon xs.
+Proof. induction xs as [|x xs IH]; [reflexivity|]. cbn [map]. rewrite <- IH. reflexivity. Qed.
+
+Lemma canon_app d xs : canon (SApp d xs) = SApp d (map canon xs).
+Proof. cbn [canon]. rewrite canon_fix_map. reflexivity. Qed.
+
+Lemma canon_tup xs : canon (STup xs) = STup (map canon xs).
+Proof. cbn [canon]. rewrite canon_fix_map. reflexivity. Qed.
+
+Lemma subst_fix_map args xs :
+  (fix go (l : list src) := match l with [] => [] | x :: l' => subst_src args x :: go l' end) xs =
+  map (subst_src args) xs.
+Proof. induction xs as [|x xs IH]; [reflexivity|]. cbn [map]. rewrite <- IH. reflexivity. Qed.
+
+Lemma subst_app args d xs : subst_src args (SApp d xs) = SApp d (map (subst_src args) xs).
+Proof. cbn [subst_src]. rewrite subst_fix_map. reflexivity. Qed.
+
+Lemma subst_tup args xs : subst_src args (STup xs) = STup (map (subst_src args) xs).
+Proof. cbn [subst_src]. rewrite subst_fix_map. reflexivity. Qed.
+
+Lemma canon_idem_n : forall n t, (src_size t <= n)%nat -> canon (canon t) = canon t.
+Proof.
+  induction n as [|n IH]; intros t Hsz; [destruct t; cbn [src_size] in Hsz; lia|].
+  destruct t as [i|d' xs|x|x|len x|xs|p|x|x|x|a b|a b|x|x|x|st lsb]; cbn [src_size] in Hsz;
+    try reflexivity;
+    try (cbn [canon]; rewrite (IH x) by lia; reflexivity);
+    try (cbn [canon]; rewrite (IH a), (IH b) by lia; reflexivity).
+  - change (S (sizes xs) <= S n)%nat in Hsz. rewrite !canon_app, map_map. f_equal.
+    apply map_ext_in. intros x Hx. apply IH. pose proof (sizes_In _ _ Hx). lia.
+  - change (S (sizes xs) <= S n)%nat in Hsz. rewrite !canon_tup, map_map. f_equal.
+    apply map_ext_in. intros x Hx. apply IH. pose proof (sizes_In _ _ Hx). lia.
+Qed.
+
+Lemma canon_idem t : canon (canon t) = canon t.
+Proof. apply (canon_idem_n (src_size t)). apply le_n. Qed.
+
+Lemma map_canon_idem args : map canon (map canon args) = map canon args.
+Proof. rewrite map_map. apply map_ext. apply canon_idem. Qed.
+
+Lemma cs_canon_args_n args : forall n c, (src_size c <= n)%nat ->
+  canon (subst_src (map canon args) c) = canon (subst_src args c).
+Proof.
+  induction n as [|n IH]; intros c Hsz; [destruct c; cbn [src_size] in Hsz; lia|].
+  destruct c as [i|d' xs|x|x|len x|xs|p|x|x|x|a b|a b|x|x|x|st lsb]; cbn [src_size] in Hsz;
+    try reflexivity;
+    try (cbn [subst_src canon]; rewrite (IH x) by lia; reflexivity);
+    try (cbn [subst_src canon]; rewrite (IH a), (IH b) by lia; reflexivity).
+  - cbn [subst_src]. pose proof (map_nth canon args (SParam i) i) as E. cbn [canon] in E. rewrite E.
+    apply canon_idem.
+  - change (S (sizes xs) <= S n)%nat in Hsz. rewrite !subst_app, !canon_app, !map_map. f_equal.
+    apply map_ext_in. intros x Hx. apply IH. pose proof (sizes_In _ _ Hx). lia.
+  - change (S (sizes xs) <= S n)%nat in Hsz. rewrite !subst_tup, !canon_tup, !map_map. f_equal.
+    apply map_ext_in. intros x Hx. apply IH. pose proof (sizes_In _ _ Hx). lia.
+Qed.
+
+Lemma cs_canon_args args c : canon (subst_src (map canon args) c) = canon (subst_src args c).
+Proof. apply (cs_canon_args_n args (src_size c)). apply le_n. Qed.
+
+Lemma instantiation_cf_canon defs d args :
+  instantiation_cf defs d (map canon args) = instantiation_cf defs d args.
+Proof.
+  unfold instantiation_cf. cbv zeta. rewrite map_canon_idem. f_equal. f_equal.
+  apply forallb_ext_local. intros ft. f_equal.
+  apply forallb_ext_local. intros c. rewrite cs_canon_args. reflexivity.
+Qed.
+
 (** when the observed tokens are the model's tokens, the checker accepts (every definition all of
     whose interned instantiations are coincidence-free is found at its path, and its stripped item
     is the checker's [expected_of]) *)
@@ -964,7 +1033,8 @@ Theorem prop_source_roundtrip_of_model (c : c05_case) (otp : bool -> tpath) teq 
      (forall lsb, sd_path sd <> order_path_of lsb) /\
      (exists id args, L id = Some (SApp k args)) /\
      (forall id args, L id = Some (SApp k args) ->
-        In args (insts_of c k) /\ map canon args = args /\ compact_fields_okb defs sd args = true)) ->
+        (exists args', In args' (insts_of c k) /\ args = map canon args') /\
+        compact_fields_okb defs sd args = true)) ->
   generate r s teq = Ok m -> emit_module s m = Ok toks -> items_plain s m = true ->
   tg_gen (c5_tg c) = OOk toks ->
   prop_source_roundtrip c = true.
@@ -978,8 +1048,8 @@ Proof.
   destruct (Hper k sd Hnth Ecf) as (Hfrag & Hbox & Hconv & Hnom & (id & args & Hl) & Hinst).
   assert (Hinst' : forall id0 args0, L id0 = Some (SApp k args0) ->
             instantiation_cf defs sd args0 = true /\ map canon args0 = args0 /\ compact_fields_okb defs sd args0 = true).
-  { intros id0 args0 Hl0. destruct (Hinst id0 args0 Hl0) as (Hin0 & Hcan & Hco).
-    split; [|split; assumption]. unfold cf_def in Ecf.
+  { intros id0 args0 Hl0. destruct (Hinst id0 args0 Hl0) as ((args' & Hin0 & ->) & Hco).
+    split; [|split; [apply map_canon_idem|exact Hco]]. rewrite instantiation_cf_canon. unfold cf_def in Ecf.
     destruct (insts_of c k) as [|a l] eqn:Ei; [discriminate|].
     rewrite forallb_forall in Ecf. apply Ecf. exact Hin0. }
   destruct (source_roundtrip_module defs L r s otp HR Hdefs Hprel Hord Hrender Hpaths k sd Hnth Hfrag Hbox Hconv
